@@ -62,9 +62,14 @@ func record(seed int64, tier, out string) {
 			hs = append(hs, hist{p[0], p[1], 250, 30, map[int]bool{}})
 		}
 	} else {
-		r.Shuffle(len(pairs), func(i, j int) { pairs[i], pairs[j] = pairs[j], pairs[i] })
+		// the six algorithm pairs rotate over the history shapes with the seed (every pair meets every shape within six seeds)
+		rot := int(seed % 6)
+		if rot < 0 {
+			rot += 6
+		}
+		pairs = append(pairs[rot:], pairs[:rot]...)
 		hs = append(hs, hist{pairs[0][0], pairs[0][1], 0, 24, map[int]bool{0: true, 12: true}})
-		hs = append(hs, hist{pairs[1][0], pairs[1][1], 245, 24, map[int]bool{9: true, 13: true}})
+		hs = append(hs, hist{pairs[1][0], pairs[1][1], 245, 24, map[int]bool{14: true, 20: true}}) // passes 255 -> 256 before its first reset
 		hs = append(hs, hist{pairs[2][0], pairs[2][1], 1<<24 - 5, 16, map[int]bool{}})
 		hs = append(hs, hist{pairs[3][0], pairs[3][1], 65530, 16, map[int]bool{8: true}})
 		hs = append(hs, hist{pairs[4][0], pairs[4][1], 0, 16, map[int]bool{0: true}})
@@ -84,6 +89,7 @@ func record(seed int64, tier, out string) {
 		w.Emit(ev.M{"ev": "Start", "id": id, "hist": hi, "enc": int(h.enc), "int": int(h.integ), "kenc": ev.Ints(ue.KnasEnc[:]),
 			"kint": ev.Ints(ue.KnasInt[:]), "ul": int(ue.ULCount.Get()), "dl": int(ue.DLCount.Get())})
 		id++
+		nreset := 0
 		for s := 0; s < h.steps; s++ {
 			plain := msgs[r.Intn(len(msgs))]
 			hdr := uint8(2)
@@ -91,8 +97,10 @@ func record(seed int64, tier, out string) {
 			avail := true
 			switch x := r.Intn(10); {
 			case newCtx:
+				// new security context: the first reset of a history is integrity-only (type 3), the second ciphered (type 4), then alternating
+				nreset++
 				hdr = 4
-				if r.Intn(4) == 0 {
+				if nreset%2 == 1 {
 					hdr = 3
 				}
 			case x == 0:
@@ -147,7 +155,7 @@ func counts(seed int64, tier, out string) {
 			sq = all
 		}
 		prior := r.Intn(1 << 24)
-		x, y := r.Intn(256), r.Intn(65536)
+		x, y := []int{0, 255, 1, 128, r.Intn(256)}[id%5], []int{0, 65535, 1, 256, 32768, r.Intn(65536)}[id%6]
 		var get, sqnOut, ovfOut, next, afterSqn, afterOvf []int
 		for _, s := range sq {
 			var c security.Count
